@@ -805,6 +805,32 @@ func TestVerifC23(t *testing.T) {
 		valid = append(valid, validFrame{frame, withMD, m, md})
 	}
 
+	// corpus first (minimised interesting inputs, /verif/corpus/C23/frames.txt)
+	if cp := os.Getenv("VERIF_CORPUS"); cp != "" {
+		if raw, err := os.ReadFile(filepath.Join(cp, "C23", "frames.txt")); err == nil {
+			for _, line := range strings.Split(string(raw), "\n") {
+				line = strings.TrimSpace(line)
+				if line == "" || line[0] == '#' {
+					continue
+				}
+				parts := strings.SplitN(line, ":", 2)
+				if len(parts) != 2 {
+					continue
+				}
+				data, err := hex.DecodeString(strings.ReplaceAll(parts[1], " ", ""))
+				if err != nil {
+					t.Fatalf("corpus line %q: %v", line, err)
+				}
+				var decs []int
+				for _, ch := range parts[0] {
+					decs = append(decs, int(ch-'0'))
+				}
+				w.put(e.runCase(idx, "corpus", data, decs))
+				idx++
+			}
+		}
+	}
+
 	// encoder refusals
 	{
 		_, err1 := e.ser.MarshalBinary(nil)
@@ -1130,7 +1156,7 @@ func TestVerifC23(t *testing.T) {
 					fp.Put(make([]byte, n/2+3))
 					fp.Put(make([]byte, 0, n+1))
 					if n > 8 {
-						fp.Put(b[:n/2:n/2+1])
+						fp.Put(b[: n/2 : n/2+1])
 					}
 				}
 			}
